@@ -173,8 +173,15 @@ package http2
 //@   assigns unrestricted, handlerStarts
 //@   ensures handlerStarts == old(handlerStarts) ++ seq[uint32]{streamID}
 //@ func (*stream).processTrailerHeaders :: st, f -> err
-//@   trusted
+//@   props C13,C10
+//@   requires st != nil && st.sc != nil && f != nil && f.HeadersFrame != nil && hdrCacheOK(st.sc)
 //@   assigns unrestricted
+//@   ensures [C13:second-trailer-block-is-a-connection-protocol-error] old(st.gotTrailerHeader) ==> isConnErr(err, 1)
+//@   ensures [C13:trailers-must-carry-end-stream] !old(st.gotTrailerHeader) && !old(flag(f.HeadersFrame.FrameHeader.Flags, 1)) ==> isStreamErr(err, old(st.id), 1)
+//@   ensures [C13:pseudo-header-in-trailers-is-a-stream-protocol-error] !old(st.gotTrailerHeader) && old(flag(f.HeadersFrame.FrameHeader.Flags, 1)) && len(old(pfields(f))) > 0 ==> isStreamErr(err, old(st.id), 1)
+//@   ensures [C13:accepted-trailers-end-the-stream-only-with-end-stream] err == nil ==> old(flag(f.HeadersFrame.FrameHeader.Flags, 1)) && !old(st.gotTrailerHeader)
+//@   loop 1 invariant -1 <= rangeindex && rangeindex < len(regFields(f)) || (rangeindex == -1 && len(regFields(f)) == 0)
+//@   loop 1 invariant st != nil && sc != nil && hdrCacheOK(sc) && st.trailer != nil && old(flag(f.HeadersFrame.FrameHeader.Flags, 1)) && !old(st.gotTrailerHeader)
 //@ -- creating a stream / re-prioritising do not touch the canonical-header cache or the common tables (assumed)
 //@ func (*serverConn).newStream :: sc, id, pusherID, state -> st
 //@   trusted
@@ -441,3 +448,27 @@ package http2
 //@   assigns unrestricted, owedByBodies
 //@   ghostset owedByBodies = owedByBodies - ite(old(st.body) != nil, unreadOf(old(st.body)), 0)
 //@   ensures [C12:unread-body-bytes-of-a-closed-stream-go-back-to-the-connection-window] connLedger(sc) == old(connLedger(sc)) && inflowOK(sc.inflow)
+
+//@ -- C13: a HEADERS block whose pseudo-header fields are unknown, duplicated (anywhere in the block) or mix request
+//@ -- and response fields is malformed
+//@ pure func pfields(mh *MetaHeadersFrame) seq[hpack.HeaderField]
+//@ func (*MetaHeadersFrame).PseudoFields :: mh -> fs
+//@   trusted
+//@   pure
+//@   ensures fs == pfields(mh)
+//@ pure func reqPseudo(n string) bool = n == ":method" || n == ":path" || n == ":scheme" || n == ":authority" || n == ":protocol"
+//@ globalinv [C13:mixed-pseudo-header-sentinel-set] errMixPseudoHeaderTypes != nil
+//@ func (*MetaHeadersFrame).checkPseudos :: mh -> err
+//@   props C13,C10
+//@   requires mh != nil
+//@   assigns nothing
+//@   ensures [C13:duplicate-pseudo-header-anywhere-in-the-block-is-malformed] (exists a int, b int :: 0 <= a && a < b && b < len(pfields(mh)) && pfields(mh)[a].Name == pfields(mh)[b].Name) ==> err != nil
+//@   ensures [C13:unknown-pseudo-header-is-malformed] (exists a int :: 0 <= a && a < len(pfields(mh)) && !reqPseudo(pfields(mh)[a].Name) && pfields(mh)[a].Name != ":status") ==> err != nil
+//@   ensures [C13:request-and-response-pseudo-headers-must-not-mix] (exists a int, b int :: 0 <= a && a < len(pfields(mh)) && 0 <= b && b < len(pfields(mh)) && reqPseudo(pfields(mh)[a].Name) && pfields(mh)[b].Name == ":status") ==> err != nil
+//@   ensures [C13:well-formed-pseudo-headers-accepted] err != nil ==> (exists a int, b int :: 0 <= a && a < b && b < len(pfields(mh)) && pfields(mh)[a].Name == pfields(mh)[b].Name) || (exists a int :: 0 <= a && a < len(pfields(mh)) && !reqPseudo(pfields(mh)[a].Name) && pfields(mh)[a].Name != ":status") || (exists a int, b int :: 0 <= a && a < len(pfields(mh)) && 0 <= b && b < len(pfields(mh)) && reqPseudo(pfields(mh)[a].Name) && pfields(mh)[b].Name == ":status")
+//@   loop 1 invariant -1 <= rangeindex && rangeindex < len(pfields(mh)) || (rangeindex == -1 && len(pfields(mh)) == 0)
+//@   loop 1 invariant pf == pfields(mh) && (forall a int, b int :: 0 <= a && a < b && b <= rangeindex ==> pf[a].Name != pf[b].Name) && (forall a int :: 0 <= a && a <= rangeindex ==> reqPseudo(pf[a].Name) || pf[a].Name == ":status")
+//@   loop 1 invariant (isRequest <==> (exists a int :: 0 <= a && a <= rangeindex && reqPseudo(pf[a].Name))) && (isResponse <==> (exists a int :: 0 <= a && a <= rangeindex && pf[a].Name == ":status"))
+//@   loop 2 invariant -1 <= rangeindex && rangeindex < i && 0 <= i && i < len(pf) && pf == pfields(mh) && val(hf) == pf[i] && (forall b int :: 0 <= b && b <= rangeindex ==> pf[b].Name != hf.Name)
+//@   loop 2 invariant (forall a int, b int :: 0 <= a && a < b && b < i ==> pf[a].Name != pf[b].Name) && (forall a int :: 0 <= a && a <= i ==> reqPseudo(pf[a].Name) || pf[a].Name == ":status")
+//@   loop 2 invariant (isRequest <==> (exists a int :: 0 <= a && a <= i && reqPseudo(pf[a].Name))) && (isResponse <==> (exists a int :: 0 <= a && a <= i && pf[a].Name == ":status"))
